@@ -84,6 +84,22 @@ def rand_tree(rng, depth, big=False):
     ar = rng.choice([0, 1, 1, 2, 2, 3, 5, 9]) if rng.random() < 0.95 else rng.randint(10, 40)
     return ('a', [rand_tree(rng, depth - 1, big) for _ in range(ar)])
 
+ARITY_EDGES = [1023, 1024, 1025, 1030, 1500, 2048, 2049, 4096]          # around proto.maxArrayPrealloc and its doublings
+BULK_EDGES = [4095, 4096, 4097, 16382, 16383, 16384, 16385, 32768, 65535, 65536, 65537, 100000]   # buffer-size edges (bufio 4096, 16 KiB, 64 KiB)
+
+def boundary_trees(rng, arities=ARITY_EDGES, bulks=BULK_EDGES):
+    """values sitting on implementation thresholds: element counts around the array pre-allocation cap, bulk lengths around
+    common buffer sizes; elements are short so the streams stay small"""
+    out = []
+    for n in arities:
+        out.append(('a', [('b', b"v%d" % i) for i in range(n)]))
+        out.append(('a', [('i', b"%d" % (i % 10)) for i in range(n)]))
+        out.append(('a', [('b', b"x"), ('a', [('b', b"e%d" % (i % 7)) for i in range(n)]), ('b', b"y")]))
+    for n in bulks:
+        out.append(('b', bytes((i * 7 + 3) % 251 for i in range(n))))
+        out.append(('a', [('b', b"SET"), ('b', b"k"), ('b', bytes(rng.randrange(256) for _ in range(n)))]))
+    return out
+
 def request_tree(rng):
     """a client request: non-empty array of bulk strings"""
     n = rng.randint(1, 5)
